@@ -490,4 +490,188 @@ theorem mean_between (keep : Bool) (a b : Rat) (ha : -bigB ≤ a) (hb : b ≤ bi
   exact mean_between_fold keep a b ha hb l' _ (by rw [s1]; omega) (by rw [s1]; omega) s2
     (by rw [s3]; exact xa) (by rw [s3]; exact xb) (fun y hy => hl y (by simp [hy]))
 
+/-! ### `M2` never decreases below zero: `Variance()` and `StdDev()` are never NaN -/
+
+/-- Not NaN and not negative (`+Inf` allowed: the products may overflow). -/
+def VarOK (v : F64) : Prop := v.isNaN = false ∧ 0 ≤ v.key
+
+theorem varOK_ofRatS (s : Bool) {q : Rat} (h : 0 ≤ q) : VarOK (ofRatS s q) := by
+  refine ⟨isNaN_ofRatS s q, ?_⟩
+  rw [key_ofRatS, if_neg (by grind)]
+  omega
+
+theorem varOK_sign_of_mag {v : F64} (h : VarOK v) (hm : v.mag ≠ 0) : v.sign = false := by
+  have := h.2
+  unfold key at this
+  cases hs : v.sign
+  · rfl
+  · rw [hs] at this; simp only [if_true] at this; omega
+
+theorem varOK_toRat {v : F64} (h : VarOK v) : 0 ≤ v.toRat := by
+  rw [toRat_eq_keyVal]
+  unfold keyVal
+  rw [if_neg (by have := h.2; omega)]
+  exact magVal_nonneg _
+
+theorem finite_of_not_nan_inf {v : F64} (h1 : v.isNaN = false) (h2 : v.isInf = false) : v.isFinite = true := by
+  simp [isNaN, isInf, isFinite] at *; omega
+
+theorem varOK_add {v p : F64} (hv : VarOK v) (hp : VarOK p) : VarOK (F64.add v p) := by
+  unfold F64.add
+  rw [hv.1, hp.1]
+  simp only [Bool.or_self, Bool.false_eq_true, if_false]
+  cases hvi : v.isInf
+  · cases hpi : p.isInf
+    · simp only [Bool.false_eq_true, if_false]
+      have fv := finite_of_not_nan_inf hv.1 hvi
+      have fp := finite_of_not_nan_inf hp.1 hpi
+      have a := varOK_toRat hv
+      have b := varOK_toRat hp
+      exact varOK_ofRatS _ (by grind)
+    · simp only [Bool.false_eq_true, if_false, if_true]; exact hp
+  · simp only [if_true]
+    have hvm : v.mag ≠ 0 := by simp [isInf] at hvi; omega
+    have sv := varOK_sign_of_mag hv hvm
+    cases hpi : p.isInf
+    · simp only [Bool.false_and, Bool.false_eq_true, if_false]; exact hv
+    · have hpm : p.mag ≠ 0 := by simp [isInf] at hpi; omega
+      have sp := varOK_sign_of_mag hp hpm
+      rw [sv, sp]; simp only [bne_self_eq_false, Bool.and_false, Bool.false_eq_true, if_false]; exact hv
+
+theorem varOK_mul_finite {d d2 : F64} (hd : d.isFinite = true) (hd2 : d2.isFinite = true)
+    (h : 0 ≤ d.toRat * d2.toRat) : VarOK (F64.mul d d2) := by
+  rw [mul_finite hd hd2]; exact varOK_ofRatS _ h
+
+theorem ofInt_count_sign (k : Nat) (hk1 : 1 ≤ k) (hk : k ≤ P53) : (F64.ofInt (k : Int)).sign = false := by
+  obtain ⟨_, kv, _⟩ := ofInt_count k hk1 hk
+  cases hs : (F64.ofInt (k : Int)).sign
+  · rfl
+  · have := toRat_of_neg hs
+    rw [kv] at this
+    have h1 := magVal_nonneg (F64.ofInt (k : Int)).mag
+    have h2 : (0 : Rat) < (k : Rat) := natCast_pos_of_pos (by omega)
+    grind
+
+theorem varOK_div_count {v : F64} (hv : VarOK v) (k : Nat) (hk1 : 1 ≤ k) (hk : k ≤ P53) :
+    VarOK (F64.div v (F64.ofInt (k : Int))) := by
+  obtain ⟨kf, kv, kz⟩ := ofInt_count k hk1 hk
+  have ks := ofInt_count_sign k hk1 hk
+  have hk0 : (0 : Rat) < (k : Rat) := natCast_pos_of_pos (by omega)
+  cases hvi : v.isInf
+  · have fv := finite_of_not_nan_inf hv.1 hvi
+    rw [div_finite fv kf kz, kv]
+    exact varOK_ofRatS _ (div_nonneg' (varOK_toRat hv) hk0)
+  · have hvm : v.mag ≠ 0 := by simp [isInf] at hvi; omega
+    have sv := varOK_sign_of_mag hv hvm
+    unfold F64.div
+    rw [hv.1, not_nan_of_finite kf, hvi, not_inf_of_finite kf, sv, ks]
+    simp only [Bool.or_self, Bool.false_eq_true, if_false, if_true, bne_self_eq_false]
+    exact ⟨by decide, by decide⟩
+
+theorem varOK_sqrt {v : F64} (hv : VarOK v) : VarOK (F64.sqrt v) := by
+  unfold F64.sqrt
+  rw [hv.1]
+  simp only [Bool.false_eq_true, if_false]
+  cases hz : v.isZero
+  · have hm : v.mag ≠ 0 := by simp [isZero] at hz; exact hz
+    rw [varOK_sign_of_mag hv hm]
+    simp only [Bool.false_eq_true, if_false]
+    cases hi : v.isInf
+    · simp only [Bool.false_eq_true, if_false]
+      split
+      · exact varOK_ofRatS _ (div_nonneg' Rat.natCast_nonneg (pow2_cast_pos _))
+      · exact varOK_ofRatS _ (div_nonneg' Rat.natCast_nonneg (pow2_cast_pos _))
+    · simp only [if_true]; exact hv
+  · simp only [if_true]; exact hv
+
+theorem rep_two_bigB : Rep (2 * bigB) := by
+  have := rep_of_dyadic 1 2096 (by decide) (by
+    rw [Nat.one_mul]; exact Nat.pow_lt_pow_right (by decide) (by decide))
+  have e : ((1 * 2 ^ 2096 : Nat) : Rat) / two1074 = 2 * bigB := by decide +kernel
+  rwa [e] at this
+
+/-- Invariant of the whole run for bounded finite samples. -/
+structure RunOK (s : NumF) : Prop where
+  meanF : s.mean.isFinite = true
+  meanLo : -bigB ≤ s.mean.toRat
+  meanHi : s.mean.toRat ≤ bigB
+  var : VarOK s.variance
+
+theorem runOK_step (keep : Bool) (s : NumF) (x : F64) (hk : 1 ≤ s.samples) (hn : s.samples + 1 ≤ P53)
+    (h : RunOK s) (xf : x.isFinite = true) (xl : -bigB ≤ x.toRat) (xh : x.toRat ≤ bigB) :
+    RunOK (NumF.samplef keep s x) := by
+  have hlo := h.meanLo
+  have hhi := h.meanHi
+  have st := mean_step_between s.mean x (s.samples + 1) (by omega) hn h.meanF xf ⟨h.meanLo, h.meanHi⟩ ⟨xl, xh⟩
+  simp only [] at st
+  rw [← samplefF_mean keep] at st
+  obtain ⟨df, mf, c1, c2⟩ := st
+  have hd2 : F64.sub x (NumF.samplef keep s x).mean =
+      ofRatS (x.sign && !(NumF.samplef keep s x).mean.sign) (x.toRat - (NumF.samplef keep s x).mean.toRat) :=
+    sub_finite xf mf
+  have r2 := rep_two_bigB
+  rcases Rat.le_total (a := s.mean.toRat) (b := x.toRat) with hle | hle
+  · obtain ⟨dnn, m1, m2⟩ := c1 hle
+    have d2v := round_between_rep (x.sign && !(NumF.samplef keep s x).mean.sign) rep_zero r2
+      (q := x.toRat - (NumF.samplef keep s x).mean.toRat) (by grind) (by grind)
+    rw [← hd2] at d2v
+    have pv : VarOK (F64.mul (F64.sub x s.mean) (F64.sub x (NumF.samplef keep s x).mean)) :=
+      varOK_mul_finite df d2v.1 (Rat.mul_nonneg dnn d2v.2.1)
+    refine ⟨mf, by grind, by grind, ?_⟩
+    rw [samplefF_var]; exact varOK_add h.var pv
+  · obtain ⟨dnp, m1, m2⟩ := c2 hle
+    have d2v := round_between_rep (x.sign && !(NumF.samplef keep s x).mean.sign) (rep_neg r2) rep_zero
+      (q := x.toRat - (NumF.samplef keep s x).mean.toRat) (by grind) (by grind)
+    rw [← hd2] at d2v
+    have pv : VarOK (F64.mul (F64.sub x s.mean) (F64.sub x (NumF.samplef keep s x).mean)) := by
+      apply varOK_mul_finite df d2v.1
+      have := Rat.mul_nonneg (a := -(F64.sub x s.mean).toRat) (b := -(F64.sub x (NumF.samplef keep s x).mean).toRat)
+        (by grind) (by grind)
+      grind
+    refine ⟨mf, by grind, by grind, ?_⟩
+    rw [samplefF_var]; exact varOK_add h.var pv
+
+theorem runOK_fold (keep : Bool) (l : List F64) : ∀ s : NumF, 1 ≤ s.samples → s.samples + l.length ≤ P53 → RunOK s →
+    (∀ x ∈ l, x.isFinite = true ∧ -bigB ≤ x.toRat ∧ x.toRat ≤ bigB) →
+    RunOK (l.foldl (NumF.samplef keep) s) := by
+  induction l with
+  | nil => intro s _ _ h _; exact h
+  | cons x l ih =>
+    intro s hk hn h hl
+    obtain ⟨xf, xa, xb⟩ := hl x (by simp)
+    simp only [List.length_cons] at hn
+    rw [List.foldl_cons]
+    exact ih _ (by rw [samplef_samples]; omega) (by rw [samplef_samples]; omega)
+      (runOK_step keep s x hk (by omega) h xf xa xb) (fun y hy => hl y (by simp [hy]))
+
+/-- For finite samples of magnitude at most `2^1021`: `M2`, `Variance()` and `StdDev()` are never NaN and
+never negative (they may be `+Inf` when a product overflows). -/
+theorem var_nonneg (keep : Bool) (l : List F64) (hn : l.length ≤ P53)
+    (hl : ∀ x ∈ l, x.isFinite = true ∧ -bigB ≤ x.toRat ∧ x.toRat ≤ bigB) :
+    VarOK (runFv keep l).variance ∧ VarOK (runFv keep l).varianceF ∧ VarOK (runFv keep l).stdDev := by
+  have hv : VarOK (runFv keep l).variance := by
+    cases l with
+    | nil =>
+      have : (runFv keep []).variance = F64.zero false := rfl
+      rw [this]; exact ⟨by decide, by decide⟩
+    | cons x l' =>
+      obtain ⟨xf, xa, xb⟩ := hl x (by simp)
+      obtain ⟨s1, s2, s3, s4, s5⟩ := first_step keep x xf
+      simp only [List.length_cons] at hn
+      unfold runFv
+      rw [List.foldl_cons]
+      refine (runOK_fold keep l' _ (by rw [s1]; omega) (by rw [s1]; omega) ⟨s2, by rw [s3]; exact xa, by rw [s3]; exact xb, ?_⟩
+        (fun y hy => hl y (by simp [hy]))).var
+      refine ⟨not_nan_of_finite s4, ?_⟩
+      have hm : (NumF.samplef keep NumF.new x).variance.mag = 0 := (toRat_eq_zero_iff _).mp s5
+      unfold key; rw [hm]; split <;> omega
+  have hvf : VarOK (runFv keep l).varianceF := by
+    unfold NumF.varianceF Numerical.varianceOf
+    split
+    · rename_i hgt
+      have hs := runFv_samples keep l
+      exact varOK_div_count hv _ (by omega) (by omega)
+    · exact ⟨by decide, by decide⟩
+  exact ⟨hv, hvf, varOK_sqrt hvf⟩
+
 end Rare.C07
